@@ -7,3 +7,22 @@ def conc(x, lo, hi):
         if x == v:
             return v
     raise AssertionError("value outside the declared range")
+
+
+class _Null:
+    def __enter__(self):
+        return self
+
+    def __exit__(self, *a):
+        return False
+
+
+def untraced():
+    """context manager: run fully concrete code at native speed inside a CrossHair harness (no-op outside CrossHair)"""
+    try:
+        from crosshair.tracers import NoTracing, is_tracing
+        if is_tracing():
+            return NoTracing()
+    except Exception:
+        pass
+    return _Null()
